@@ -606,7 +606,7 @@ def rule_spec_substitution_keeps_settings(model: Model, rule_id: str = 'C18-R7')
                         form = re.sub(r',?\s*\*\*\{[^{}]*\}', (', ' + spelled) if spelled else '', form)
         r.sample({'returns': form[:120]})
         alts = [form]
-        if form.startswith('PHI(') and form.endswith(')'):
+        if _is_wrapped(form, 'PHI('):
             alts = _split_top(form[4:-1], '|')
         bad = []
         simultaneous: t.List[str] = []
@@ -637,6 +637,21 @@ def rule_spec_substitution_keeps_settings(model: Model, rule_id: str = 'C18-R7')
         else:
             r.ok()
     return r
+
+
+def _is_wrapped(form: str, head: str) -> bool:
+    """``form`` is exactly ``head ... )`` with the parenthesis opened by ``head`` closing at the very end."""
+    if not (form.startswith(head) and form.endswith(')')):
+        return False
+    depth = 0
+    for i, ch in enumerate(form):
+        if ch in '([{':
+            depth += 1
+        elif ch in ')]}':
+            depth -= 1
+            if depth == 0:
+                return i == len(form) - 1
+    return False
 
 
 def _split_top(s: str, sep: str) -> t.List[str]:
@@ -757,6 +772,21 @@ def rule_union_writer_keeps_handlers(model: Model, rule_id: str = 'C18-R8') -> R
                 r.fail(f.qualname, unparse(c)[:90], f.loc(c),
                        "a value under a union is serialised by a converter built without the handlers of the call: custom= stops applying "
                        "inside Optional[...] / Union[...] / ValueOrList[...] on output, although it applies on input")
+        # whatever leaves the writer went through some converter's writer (a member's, or the runtime type's): no value is handed out raw
+        for n in cfg.live_nodes():
+            if n.kind != 'return' or n.ast is None or n.ast.value is None:
+                continue
+            r.instances += 1
+            form = nz.expr(n.ast.value, n)
+            r.sample({'function': f.qualname, 'returns': form[:90]})
+            alts = _split_top(form[4:-1], '|') if _is_wrapped(form, 'PHI(') else [form]
+            raw = [a for a in alts if not re.search(r'(\.into_data\(|\.map\(|^\[|^LIST\(|^GEN\(|^list\(|^tuple\()', a)]
+            if raw:
+                r.fail(f.qualname, f"returns {raw[0][:80]}", f.loc(n.ast),
+                       "a value leaves the union writer without passing through a member's writer (a constant / the value itself): a custom "
+                       "converter registered for that member (e.g. for NoneType inside Optional[...]) is bypassed on output but applied on input")
+            else:
+                r.ok()
     return r
 
 
